@@ -31,7 +31,7 @@ RULE = ("complete enumeration of (1) all inheritance graphs on n named entries w
 WIT = ["inherit_ok", "inherit_missing_parent", "inherit_cycle", "inherit_excluded_key_skipped", "inherit_diamond_or_chain",
        "range_len1", "range_len2", "range_len3plus", "count_group", "two_groups", "rejected_declaration",
        "inherited_range_ignored", "access_subset", "uniform", "const", "normal", "expon", "malformed_spec_rejected",
-       "builtin_class_resolved", "user_class_resolved", "class_error_reported", "legacy_key_equal", "legacy_both_rejected", "class_resolution_sequences", "inherited_count", "entity_through_extends"]
+       "builtin_class_resolved", "user_class_resolved", "class_error_reported", "legacy_key_equal", "legacy_both_rejected", "class_resolution_sequences", "inherited_count", "entity_through_extends", "agent_int_parameter"]
 
 # ---------------------------------------------------------------------------------------------- 1
 
@@ -276,10 +276,40 @@ def random_cases():
                 yield ("expon", u, g, lam, None)
     for i in range(len(BADSPECS)):
         yield ("bad", 0.5, 0.0, i, None)
+    # integer-valued agent parameters given as a distribution: the value the agent ends up with lies in the support
+    # (u = 1 - 2^-53 is left out here: a + (b - a) u then rounds to b itself in floating point, as Python documents for uniform)
+    for u in [2.0 ** -53, 0.25, 0.26, 0.5, 0.74, 0.76, 0.999]:
+        for which in range(len(INT_PARAMS)):
+            for a, b in ((2, 4), (1, 6), (3, 4)):
+                yield ("agent_int_param", u, which, a, b)
+
+
+INT_PARAMS = [("MarketMakerAgent", "orderTimeLength", "order_time_length"), ("FCNAgent", "timeWindowSize", "time_window_size"),
+              ("FCNAgent", "meanReversionTime", "mean_reversion_time"), ("MarketShareFCNAgent", "timeWindowSize", "time_window_size")]
 
 
 def random_fn(case, wit):
     kind, u, g, a, b = case
+    if kind == "agent_int_param":
+        import pams.agents
+        cname, key, attr = INT_PARAMS[g]
+        st = {"cashAmount": 100, "assetVolume": 1}
+        if "FCN" in cname:
+            st.update({"fundamentalWeight": 1.0, "chartWeight": 0.0, "noiseWeight": 0.0, "noiseScale": 0.001, "timeWindowSize": 5, "orderMargin": 0.0})
+        else:
+            st.update({"targetMarket": "m", "netInterestSpread": 0.02})
+        for form in ([a, b], {"uniform": [a, b]}):
+            st[key] = form
+            sim = type("S", (), {})()
+            sim.name2market = {"m": type("M", (), {"market_id": 0})()}
+            ag = getattr(pams.agents, cname)(0, StubRandom(u=u, g=0.0), sim, "a")
+            ag.setup(dict(st), [0])
+            v = getattr(ag, attr)
+            if not (isinstance(v, int) and a <= v < b):
+                raise Violation("C18.int_parameter_support", "an integer-valued agent parameter given as a distribution ended up outside the distribution's support [a, b)",
+                                "%s.%s = %r with u=%r -> %r" % (cname, key, form, u, v))
+        wit.inc("agent_int_parameter")
+        return (kind, g)
     jr = JsonRandom(StubRandom(u=u, g=g))
     if kind in ("uniform", "uniform_list"):
         x = jr.random([a, b] if kind == "uniform_list" else {"uniform": [a, b]})
